@@ -337,6 +337,21 @@ pub(crate) fn make_register_word(
 ) -> anyhow::Result<()> {
     module.register_method("RegisterWord", move |params, ctx, _| {
         let params = params.parse::<RegisterWordRequest>()?;
+        // 空白・改行・制御文字が含まれると、ユーザー辞書の一行として書き出せず、別のエントリとして読み込まれてしまう
+        if params.reading.is_empty()
+            || params.word.is_empty()
+            || params
+                .reading
+                .chars()
+                .chain(params.word.chars())
+                .any(|c| c.is_whitespace() || c.is_control())
+        {
+            return Err(jsonrpsee::types::ErrorObject::owned(
+                jsonrpsee::types::error::INVALID_PARAMS_CODE,
+                "reading and word must be non-empty and must not contain whitespace",
+                None::<()>,
+            ));
+        }
         {
             let entry = match params.kind {
                 RegisterWordKind::Guess => Entry::new_guessed(&params.reading, &params.word),
